@@ -43,7 +43,7 @@ Definition absorb_r (c m : core3 R) : core3 R :=
   mk3 (r0 c) (nn c) (r1 m) (fun p i q => sum_n (r1 c) (fun k => e3 c p i k * e3 m k 0%nat q)).
 (* einsum('ij,jkl->ikl', m[:,0,:], right) *)
 Definition absorb_l (m c : core3 R) : core3 R :=
-  mk3 (r0 m) (nn c) (r1 c) (fun p i q => sum_n (r0 c) (fun j => e3 m p 0%nat j * e3 c j i q)).
+  mk3 (r0 m) (nn c) (r1 c) (fun p i q => sum_n (r1 m) (fun j => e3 m p 0%nat j * e3 c j i q)).
 
 Definition is_nil {A} (l : list A) : bool := match l with [] => true | _ => false end.
 
